@@ -253,6 +253,41 @@ def check(ctx: Ctx) -> None:
             for a in nonlit:
                 if not a.startswith("inspect.getsource("):
                     ob.violation(f, calls[0], f"non-literal bootstrap part {a}")
+            if fname != "bootstrap_import":
+                # the fragment runs in the SAME namespace as the shipped gateway_base source: a global the fragment binds
+                # (`io = init_popen_io(..)`) replaces a module-level binding of the same name that functions of the shipped source
+                # use -- only in source-bootstrapped workers, an import-bootstrapped worker keeps its module namespace
+                gb_mod = repo.module("gateway_base")
+                gsrc = open(gb_mod.path, encoding="utf-8").read()
+                gtree = ast.parse(gsrc)
+                mod_bound: set[str] = set()
+                for st_ in gtree.body:
+                    if isinstance(st_, (ast.Import, ast.ImportFrom)):
+                        mod_bound |= {(a_.asname or a_.name).split(".")[0] for a_ in st_.names}
+                    elif isinstance(st_, (ast.FunctionDef, ast.ClassDef, ast.AsyncFunctionDef)):
+                        mod_bound.add(st_.name)
+                    elif isinstance(st_, (ast.Assign, ast.AnnAssign)):
+                        for tg_ in (st_.targets if isinstance(st_, ast.Assign) else [st_.target]):
+                            mod_bound |= {x_.id for x_ in ast.walk(tg_) if isinstance(x_, ast.Name)}
+                used_in_funcs = {n_ for n_, scopes in global_refs(gsrc, "gateway_base").items() if any(sc for sc in scopes)}
+                ftree_ = ast.parse(src)
+                frag_bound: dict[str, ast.AST] = {}
+                for st_ in ftree_.body:
+                    for x_ in ([st_] if isinstance(st_, (ast.Import, ast.ImportFrom)) else []):
+                        for a_ in x_.names:
+                            frag_bound.setdefault((a_.asname or a_.name).split(".")[0], st_)
+                    if isinstance(st_, (ast.Assign, ast.AnnAssign, ast.AugAssign)):
+                        for tg_ in (st_.targets if isinstance(st_, ast.Assign) else [st_.target]):
+                            for x_ in ast.walk(tg_):
+                                if isinstance(x_, ast.Name):
+                                    frag_bound.setdefault(x_.id, st_)
+                # (an import of the same module under the same name re-binds the same object: harmless)
+                clash = sorted(n_ for n_, st_ in frag_bound.items() if n_ in mod_bound and n_ in used_in_funcs and not isinstance(st_, (ast.Import, ast.ImportFrom)))
+                ob.site(f, calls[0], "globals bound by the fragment do not replace module-level names the shipped source uses", fragment_binds=sorted(frag_bound), clashes=clash)
+                for n_ in clash:
+                    ob.violation(f, calls[0], f"the bootstrap fragment of {fname} rebinds the global {n_!r}, which the shipped gateway_base source binds at module level and uses "
+                                              "inside its functions: source-bootstrapped workers see the fragment's object there, import-bootstrapped ones the module's",
+                                 construct=f"{fname} rebinds {n_}")
             if fname == "bootstrap_import":
                 for n in ast.walk(ast.parse(src)):
                     if isinstance(n, ast.ImportFrom) and (n.module or "").startswith("execnet") and n.module != "execnet.gateway_base":
